@@ -419,7 +419,7 @@ inline bool threads_F(Rng& r, uint64_t idx)
 // ================================================================================================ faults (C10)
 struct FaultPlan
 {
-  // per statement index in the global issue order: 0 none, 1 too few args, 2 wrong spec, 3 bomb std, 4 bomb non-std, 5 bomb int, 6 backtrace w/o init
+  // per statement index in the global issue order: 0 none, 1 too few args, 2 wrong spec, 3 bomb std, 4 bomb non-std, 5 bomb int, 6 backtrace w/o init, 9-11 named-placeholder bombs, 12-14 bombs in a statement whose level is supplied at run time
   std::vector<uint8_t> kind;
 };
 
@@ -442,6 +442,9 @@ inline int log_faulty(Lg* lg, uint8_t kind, uint32_t tid, uint32_t seq)
   case 9: VF_LOG_RES(res, lg, quill::LogLevel::Info, "{bomb}", Bomb{1, tid, seq}); break;            // named placeholder, formatter throws std
   case 10: VF_LOG_RES(res, lg, quill::LogLevel::Info, "{bomb}", Bomb{2, tid, seq}); break;           // ... a non-std type
   case 11: VF_LOG_RES(res, lg, quill::LogLevel::Info, "{bomb}", Bomb{3, tid, seq}); break;           // ... an int
+  case 12: VF_LOG_DYN(res, lg, quill::LogLevel::Info, "{}", Bomb{1, tid, seq}); break;               // level supplied at run time, formatter throws std
+  case 13: VF_LOG_DYN(res, lg, quill::LogLevel::Warning, "{}", Bomb{2, tid, seq}); break;            // ... a non-std type (the record has a trailing level byte)
+  case 14: VF_LOG_DYN(res, lg, quill::LogLevel::Error, "{}", Bomb{3, tid, seq}); break;              // ... an int
   default: break;
   }
   return res;
@@ -464,7 +467,7 @@ inline bool faults_S(Rng& r, uint64_t idx)
   World* wp = &w;
   // history of N statements; every (position, kind) and every (sink, call index) is enumerated across scenarios
   uint32_t const N = 12;
-  constexpr uint64_t KINDS = 11;
+  constexpr uint64_t KINDS = 14;
   bool const enumerate = idx < 12 * KINDS + 3 * 14 * 3;
   int fault_pos = -1, fault_kind = 0, sink_fault = -1, sink_call = -1;
   bool sink_fault_flush = false, sink_fault_flush_persistent = false;
@@ -484,7 +487,7 @@ inline bool faults_S(Rng& r, uint64_t idx)
   if (!enumerate)
   {
     uint32_t nf = static_cast<uint32_t>(r.range(1, 4));
-    for (uint32_t i = 0; i < nf; ++i) faults.emplace_back(static_cast<int>(r.below(N * 2)), static_cast<int>(r.pick({1, 2, 3, 4, 5, 6, 9, 10, 11})));
+    for (uint32_t i = 0; i < nf; ++i) faults.emplace_back(static_cast<int>(r.below(N * 2)), static_cast<int>(r.pick({1, 2, 3, 4, 5, 6, 9, 10, 11, 12, 13, 14})));
     if (r.chance(1, 2)) { sink_fault = static_cast<int>(r.below(3)); sink_call = static_cast<int>(r.below(20)); sink_fault_flush = r.chance(1, 3); sink_fault_flush_persistent = sink_fault_flush && r.chance(1, 2); }
   }
   if (sink_fault >= 0)
